@@ -788,24 +788,27 @@ pub fn check_no_dup_and_order(d: &Digest, class_prefix: &str) -> Option<Violatio
         }
         last.insert(t, s);
     }
-    // real-time order across threads: ret(append a) < inv(append b) => a delivered before b
-    let pos: HashMap<u64, usize> = d.delivery.iter().enumerate().map(|(i, id)| (*id, i)).collect();
-    let delivered: Vec<(u64, &EntryInfo)> =
-        d.delivery.iter().map(|id| (*id, d.entries.get(id).unwrap())).collect();
-    for (a, ea) in &delivered {
-        let Some(ra) = ea.ret else { continue };
-        for (b, eb) in &delivered {
-            if a != b && ra < eb.inv && pos[a] > pos[b] {
+    // real-time order across threads: ret(append a) < inv(append b) => a delivered before b.
+    // One pass in delivery order: a violates it iff some entry delivered *before* a began after a returned,
+    // i.e. iff ret(a) < the largest inv among the entries delivered so far.
+    let mut latest_begun: Option<(u64, u64)> = None; // (inv, id) with the largest inv delivered so far
+    for a in &d.delivery {
+        let ea = d.entries.get(a).unwrap();
+        if let (Some(ra), Some((inv_b, b))) = (ea.ret, latest_begun) {
+            if ra < inv_b && *a != b {
                 return Some(Violation::new(
                     &format!("{class_prefix}reordered"),
                     format!(
                         "append of {} returned before append of {} began, but {} reached the stream first",
                         fmt_id(*a),
-                        fmt_id(*b),
-                        fmt_id(*b)
+                        fmt_id(b),
+                        fmt_id(b)
                     ),
                 ));
             }
+        }
+        if latest_begun.map(|(i, _)| ea.inv > i).unwrap_or(true) {
+            latest_begun = Some((ea.inv, *a));
         }
     }
     None
@@ -1356,7 +1359,23 @@ fn gen_c09_long_stall(rng: &mut Rng) -> Value {
     })
 }
 
+/// "for all capacities": a ring of more than 2^20 slots against a completely stalled writer. Appending exactly
+/// `capacity` (+ a few) entries loses exactly the few oldest. One such run costs ~10 s and ~600 MB: very rare.
+fn gen_c09_huge(rng: &mut Rng) -> Value {
+    let cap = (1u64 << 20) + 1 + rng.below(3000);
+    let n = cap + *rng.pick(&[0u64, 0, 1, 5]);
+    let mut v = gen_c09_long_stall(rng);
+    v["capacity"] = json!(cap);
+    v["producers"] = json!([[{"op":"append","n": n}]]);
+    v["sched"] = gen_sched(rng, &SchedOpts { est_choices: 100, threads: 2, jump_max_ns: 0, stall_clock_max_ns: 0, max_steps: 400_000_000 });
+    v["huge"] = json!(true);
+    v
+}
+
 pub fn gen_c09(rng: &mut Rng, _tier: Tier) -> Value {
+    if rng.chance(1.0 / 50_000.0) {
+        return gen_c09_huge(rng);
+    }
     if rng.chance(0.01) {
         return gen_c09_long_stall(rng);
     }
@@ -1458,6 +1477,9 @@ impl Scenario for QueueOverflow {
             if ju(plan, "capacity", 0) == 1 && lost > 0 {
                 r.probe("displacement_at_capacity_1", 1);
             }
+            if ju(plan, "capacity", 0) > (1 << 20) {
+                r.probe("capacity_over_2_20_filled", 1);
+            }
             // displaced by a different producer: a lost entry whose `capacity` next newer appends include another thread
             let multi = ja(plan, "producers").len() > 1 && lost > 0;
             if multi {
@@ -1470,13 +1492,13 @@ impl Scenario for QueueOverflow {
         finish_report(r, out, run, plan, check_c09, false)
     }
     fn probes(&self) -> Vec<&'static str> {
-        vec!["entries_displaced", "displacement_at_capacity_1", "displacement_with_several_producers", "append_while_writer_parked"]
+        vec!["entries_displaced", "displacement_at_capacity_1", "displacement_with_several_producers", "append_while_writer_parked", "capacity_over_2_20_filled"]
     }
     fn components(&self) -> Value {
         queue_components()
     }
     fn rule(&self) -> &'static str {
-        "each run: capacity 1-8, 1-3 producers appending up to ~6x capacity, stream gated (closed, or opened for k entries at a time; a quarter of the runs: single producer against a completely stalled writer), local metrics recorder; seeded schedule. non-trivial = >= 2 threads and >= 1 preemption; distinct = distinct (context-switch signature, producer op lists)"
+        "each run: capacity 1-8 (1 run in 50 000: more than 2^20, filled to the brim against a stalled writer), 1-3 producers appending up to ~6x capacity, stream gated (closed, or opened for k entries at a time; a quarter of the runs: single producer against a completely stalled writer), local metrics recorder; seeded schedule. non-trivial = >= 2 threads and >= 1 preemption; distinct = distinct (context-switch signature, producer op lists)"
     }
 }
 
